@@ -40,7 +40,7 @@ def IsAllowed : List String := ["m.isInList(ip, m.whitelist)", "record := m.find
 def IsBanned : List String := ["!exists", "record.isExpired()"]
 def RecordFailure : List String := ["!exists", "totalCount >= p.config.PermanentBanAt", "recentFailures >= p.config.MaxFailures"]
 def UpdateAuth : List String := ["!exists"]
-def VerifyResponse : List String := []
+def VerifyResponse : List String := ["err != nil"]
 def banIP : List String := ["duration > 0", "existing, exists := p.bannedIPs[ip]; exists && existing.ExpiresAt.IsZero() && duration > 0", "duration > 0"]
 def handleChallengePhase1 : List String := ["h.secretKeyMgr == nil", "config.SecretKeyEncrypted == \"\"", "err != nil"]
 def handleChallengePhase2 : List String := ["challenge == \"\"", "h.bruteForceProtector != nil", "!h.secretKeyMgr.VerifyResponse(config.SecretKeyEncrypted, challenge, req.ChallengeResponse)", "h.bruteForceProtector != nil", "h.bruteForceProtector != nil"]
